@@ -242,26 +242,39 @@ func (m *StringifiedMessage) encode(d *Decoder, sb *strings.Builder, tagType byt
 }
 
 func writeEscapeStr(sb *strings.Builder, str string) {
+	if !needQuote(str) {
+		sb.WriteString(str)
+		return
+	}
+	dc := strings.Count(str, `"`)
+	sc := strings.Count(str, `'`)
+	if dc > sc {
+		sb.WriteString("'")
+		if _, err := strings.NewReplacer(`'`, `\'`, `\`, `\\`).WriteString(sb, str); err != nil {
+			panic(err)
+		}
+		sb.WriteString("'")
+	} else {
+		sb.WriteString(`"`)
+		if _, err := strings.NewReplacer(`"`, `\"`, `\`, `\\`).WriteString(sb, str); err != nil {
+			panic(err)
+		}
+		sb.WriteString(`"`)
+	}
+}
+
+// needQuote reports whether str cannot be written as an unquoted string:
+// it is empty, it contains a character that is not allowed in an unquoted string,
+// or it starts like a number (digit, sign or decimal point), so that a parser
+// would not read it back as a string.
+func needQuote(str string) bool {
+	if str == "" {
+		return true
+	}
 	for _, v := range []byte(str) {
 		if !isAllowedInUnquotedString(v) {
-			// need quote
-			dc := strings.Count(str, `"`)
-			sc := strings.Count(str, `'`)
-			if dc > sc {
-				sb.WriteString("'")
-				if _, err := strings.NewReplacer(`'`, `\'`, `\`, `\\`).WriteString(sb, str); err != nil {
-					panic(err)
-				}
-				sb.WriteString("'")
-			} else {
-				sb.WriteString(`"`)
-				if _, err := strings.NewReplacer(`"`, `\"`, `\`, `\\`).WriteString(sb, str); err != nil {
-					panic(err)
-				}
-				sb.WriteString(`"`)
-			}
-			return
+			return true
 		}
 	}
-	sb.WriteString(str)
+	return isNumber(str[0]) || str[0] == '-' || str[0] == '+' || str[0] == '.'
 }
